@@ -434,6 +434,8 @@ def check_atheris(ctx, c):
                         key="atheris")
 
 
+RULE = RULE + " " + ('Since seeded round 5 constants also come as UnitValue objects inside per-environment dictionaries (right and wrong dimension), split_K draws very small and very large magnitudes (1e-30 .. 3e12: a constant is zero only if it is zero) and re-assigns the constants after K and split were read.')
+
 FACETS = [
     Facet("stoichiometry", check_sto, strategy=strat_sto, examples=(6000, 200000), shards=(8, 16)),
     Facet("constants", check_const, strategy=strat_const, examples=(4000, 100000), shards=(8, 16)),
